@@ -230,6 +230,21 @@ def container_hist_cases(ctx):
                     # handles: 0 = int item, 1 = array, 2 = second item; results of get are new handles (released at the end)
                     ops = ["bi 0 8 7", kind, "bs 0 6162"] + list(seq)
                     out.append(close_history(ops))
+    # indices that agree with an in-range index (or with size) modulo 2^8 / 2^16 / 2^31 / 2^32 / 2^63: refused, nothing touched
+    for kind in ("nda 3", "nia"):
+        for size in (0, 1, 2):
+            for base in (0, size - 1, size, size + 1):
+                if base < 0:
+                    continue
+                for k in (1 << 8, 1 << 16, 1 << 31, 1 << 32, 3 << 32, 1 << 63, (1 << 64) - (1 << 32)):
+                    if base + k >= 1 << 64:
+                        continue
+                    ops = ["bi 0 8 7", kind, "bs 0 6162"] + ["push 1 0"] * size
+                    ops += ["get 1 %d" % (base + k), "set 1 %d 2" % (base + k), "repl 1 %d 2" % (base + k), "get 1 0"]
+                    out.append(close_history(ops))
+            ops = ["bi 0 8 7", kind, "bs 0 6162"] + ["push 1 0"] * size
+            ops += ["get 1 %d" % ((1 << 64) - 1), "set 1 %d 2" % ((1 << 64) - 1), "repl 1 %d 2" % ((1 << 64) - 1)]
+            out.append(close_history(ops))
     # maps and chunked strings
     for cap in range(0, 4):
         for kind in ("ndm %d" % cap, "nim"):
@@ -262,7 +277,7 @@ def close_history(ops, probe_every=1):
 
 reg(Prop("C12", ["Properties_C12"], [
     Stream("containers", "hist", container_hist_cases, args=(LDEF, CAP, "none", 0), flavours=("rel", "dbg"), nontrivial=lambda c, l: True, timeout=900,
-           rule="operation sequences on every container kind: capacities 0..3 (definite) and indefinite, indices 0..size+2, exhaustive sequences of push/get/set/replace up to length 3 (4 thorough) over a pool of items, map adds and chunk adds 0..9, and runs of up to 1100 (4100 thorough) insertions for the growth clause; compared per step with the model (return value, size/capacity, refcounts) and on the complete allocator trace, which counts and sizes every realloc"),
+           rule="operation sequences on every container kind: capacities 0..3 (definite) and indefinite, indices 0..size+2 and indices congruent to an in-range index or to size modulo 2^8, 2^16, 2^31, 2^32, 2^63 (and 2^64-1), exhaustive sequences of push/get/set/replace up to length 3 (4 thorough) over a pool of items, map adds and chunk adds 0..9, and runs of up to 1100 (4100 thorough) insertions for the growth clause; compared per step with the model (return value, size/capacity, refcounts) and on the complete allocator trace, which counts and sizes every realloc"),
     hist_stream("hist", flavours=("rel",)),
 ], level_note="Per-operation refinement lemmas over model H (HCont_proofs.v) for arbitrary allocator oracles; the in-range replace that releases the last reference of the old element is covered by the C04 release theorem + the hist stream, not by a container lemma"))
 
